@@ -86,6 +86,14 @@ func (g *Graph) continueWalking(found chan x509.CertificateChain, start *GraphEd
 		return
 	}
 
+	// If the SubjectAndKey we are standing on is already in the chain, the last
+	// certificate was self-signed (and not a root): every certificate issued to
+	// this node would be a second certificate of the same SubjectAndKey, i.e. a
+	// loop.
+	if soFar.SubjectAndKeyInChain(current.SubjectAndKey) {
+		return
+	}
+
 	// If we've traveled too far, just stop.
 	if len(soFar) >= maxIntermediateCount {
 		return
